@@ -13,7 +13,7 @@ func init() {
 	register(&Prop{
 		ID: "C19",
 		Explanation: "Decides structural necessary conditions of C19: (R-C19-1) after publication the only removal from the active set is the one in the apply phase of a poll, edge-dominated by 'the update is the nil marker' and by the no-handle edge; the nil marker is recorded only in the poll on a branch that depends on the snapshot's expired flag, and every value stored into that flag depends on the expiry predicate; " +
-			"(R-C19-2) the expiry predicate can answer other than false only under !Declared and expiryAge > 0, and then answers exactly now.Sub(lastAccess) > expiryAge with the store's clock, the entry's own last-access time and the configured age; (R-C19-3) every handle read stores timeNow().Unix() into the LastAccess of the entry it returns, under the lock, on every path; " +
+			"(R-C19-6) after construction whole entries are installed only by the lookup of a new name (polls update in place, so the Declared flag survives); (R-C19-2) the expiry predicate can answer other than false only under !Declared and expiryAge > 0, and then answers exactly now.Sub(lastAccess) > expiryAge with the store's clock, the entry's own last-access time and the configured age; (R-C19-3) every handle read stores timeNow().Unix() into the LastAccess of the entry it returns, under the lock, on every path; " +
 			"(R-C19-4) lastAccess is persisted in the cache document and Declared is not; a zero stamp reads as the zero time; (R-C19-5) Declared is set only before publication, for names of the configured list or for entries stubbed from it; entries created by lookups leave it unset.",
 		NotDecided:  "Clock arithmetic over histories and restarts; which polls happen when.",
 		Trusted:     commonTrusted,
@@ -57,7 +57,16 @@ func runC19(c *eng.Ctx, tier string) {
 	}
 	l := moduleLocks(c)
 	poll := p.Method(setecPkg, "Store", "poll")
-	apply := p.Method(setecPkg, "Store", "applyUpdates")
+	applyFns := applyFuncs(c)
+	isApply := func(f *ssa.Function) bool {
+		for _, g := range applyFns {
+			if g == f {
+				return true
+			}
+		}
+		return false
+	}
+	lookupFn, _ := lookupRoutine(p)
 
 	// R-C19-1 removals
 	nDel := 0
@@ -67,13 +76,16 @@ func runC19(c *eng.Ctx, tier string) {
 		}
 		st := l.HeldBefore(a.In)
 		if l.Holds(st, keyStore) && !l.HoldsReal(st, keyStore) {
-			continue // pre-publication reset of a bad cache
-		}
-		nDel++
-		c.Check(a.Fn == apply && a.Map.Kind == "delete", "R-C19-1", a.Fn, a.In.Pos(), "removal "+eng.InstrStr(a.In)+" in "+eng.FName(a.Fn), "after publication secrets are dropped only one at a time in the apply phase of a poll", "")
-		if a.Fn != apply {
+			// judged by checkPrepubRemovals below
 			continue
 		}
+		nDel++
+		c.Check(isApply(a.Fn) && a.Map.Kind == "delete", "R-C19-1", a.Fn, a.In.Pos(), "removal "+eng.InstrStr(a.In)+" in "+eng.FName(a.Fn), "after publication secrets are dropped only one at a time in the apply phase of a poll", "")
+		if !isApply(a.Fn) {
+			continue
+		}
+		apply := a.Fn
+		c.Check(removalGuardedByHandle(a), "R-C19-1", a.Fn, a.In.Pos(), eng.InstrStr(a.In)+" [no handle]", "edge-dominated by the not-present edge of a lookup of the same name in the handle map, in the same critical section (a secret with a live handle or watcher is never dropped)", "holding: "+eng.FactsString(a.In))
 		// dominated by "update is the nil marker" for the same name
 		var loop *mapLoop
 		for _, ml := range mapLoops(apply) {
@@ -90,7 +102,20 @@ func runC19(c *eng.Ctx, tier string) {
 		}
 		c.Check(okNil, "R-C19-1", a.Fn, a.In.Pos(), eng.InstrStr(a.In)+" [marker]", "edge-dominated by 'the update recorded for this very name is the nil (expired) marker'", "holding: "+eng.FactsString(a.In))
 	}
-	c.Check(nDel == 1, "R-C19-1", apply, 0, "number of post-publication removal sites", "exactly one", "found "+itoa(nDel))
+	checkPrepubRemovals(c, "R-C19-1")
+	c.Check(nDel == 1, "R-C19-1", nil, 0, "number of post-publication removal sites", "exactly one", "found "+itoa(nDel))
+	// R-C19-6 who may insert after publication: only the lookup routine (entries
+	// installed by a poll are updated in place, so Declared and the access stamp survive)
+	for _, a := range storeAccesses(p) {
+		if a.Map == nil || a.What != "active.m" || a.Map.Kind != "update" {
+			continue
+		}
+		st := l.HeldBefore(a.In)
+		if l.Holds(st, keyStore) && !l.HoldsReal(st, keyStore) {
+			continue
+		}
+		c.Check(lookupFn != nil && eng.Outer(a.Fn) == lookupFn, "R-C19-6", a.Fn, a.In.Pos(), "entry (re)placed after publication: "+eng.InstrStr(a.In), "after construction a whole entry is installed only by the lookup of a new name; polls update the value of the existing entry in place (replacing the entry would silently drop its Declared flag and access stamp)", "in "+eng.FName(a.Fn))
+	}
 	// the nil marker is recorded only in poll, on a branch depending on the expired flag
 	var flagField *eng.FieldRef
 	nMark := 0
@@ -285,6 +310,16 @@ func runC19(c *eng.Ctx, tier string) {
 				c.Check(!contains(shape, "Declared") && !contains(shape, "declared"), "R-C19-4", nil, f.Pos(), "persistence of cachedSecret.Declared", "not persisted (declaration is a property of the running configuration)", shape)
 			}
 		}
+	}
+
+	// the stamp reaches the cache with the next write: the flush routine never skips the write
+	for _, f := range p.PkgFuncs(setecPkg) {
+		eng.Instrs(f, func(in ssa.Instruction) {
+			call, ok := in.(*ssa.Call)
+			if ok && call.Call.IsInvoke() && call.Call.Method.Name() == "Write" && eng.IsNamed(call.Call.Value.Type(), setecPkg, "Cache") {
+				flushAlwaysWrites(c, "R-C19-4", f, call)
+			}
+		})
 	}
 
 	// R-C19-5 who declares
